@@ -223,34 +223,61 @@ section A
 open CpModel.C20Admit
 
 /-- `(obs0, [(tid, obs)])` -/
-def parseTrace {τ : Type} (ptid : String → Option τ) (s : String) : Option (String × List (τ × String)) :=
+def parseTrace {τ ο : Type} (ptid : String → Option τ) (pobs : String → Option ο) (s : String) :
+    Option (ο × List (τ × ο)) :=
   match s.splitOn "|" with
   | [] => none
   | first :: rest =>
     if !first.startsWith "~" then none else
-    let o0 := (first.drop 1).toString
-    let rec go : List String → String → List (τ × String) → Option (List (τ × String))
-      | [], _, acc => some acc.reverse
-      | it :: r, last, acc =>
-        match it.splitOn "~" with
-        | [t] => (ptid t).bind fun t' => go r last ((t', last) :: acc)
-        | [t, o] => (ptid t).bind fun t' => go r o ((t', o) :: acc)
-        | _ => none
-    (go rest o0 []).map fun tr => (o0, tr)
+    match pobs (first.drop 1).toString with
+    | none => none
+    | some o0 =>
+      let rec go : List String → ο → List (τ × ο) → Option (List (τ × ο))
+        | [], _, acc => some acc.reverse
+        | it :: r, last, acc =>
+          match it.splitOn "~" with
+          | [t] => (ptid t).bind fun t' => go r last ((t', last) :: acc)
+          | [t, o] => (ptid t).bind fun t' => (pobs o).bind fun o' => go r o' ((t', o') :: acc)
+          | _ => none
+      (go rest o0 []).map fun tr => (o0, tr)
 
-def answer {σ τ : Type} (step : σ → τ → σ) (en : σ → τ → Bool) (obs : σ → String) (key : σ → String)
-    (showTid : τ → String) (c0 : σ) (o0 : String) (tr : List (τ × String)) : String :=
+def answer {σ τ ο : Type} [DecidableEq ο] (step : σ → τ → σ) (en : σ → τ → Bool) (obs : σ → ο)
+    (render : ο → String) (key : σ → String)
+    (showTid : τ → String) (c0 : σ) (o0 : ο) (tr : List (τ × ο)) : String :=
   if admitsInit step en obs key FUEL c0 o0 tr then "ok" else
-  let S0 := if obs c0 == o0 then [c0] else []
-  if S0.isEmpty then s!"no init have={obs c0}" else
+  let S0 := if obs c0 = o0 then [c0] else []
+  if S0.isEmpty then s!"no init have={render (obs c0)}" else
   match failAt step en obs (pruneBy key) FUEL S0 tr 0 with
   | none => "no ?"
   | some (i, S) =>
     match tr[i]? with
     | none => "no ?"
     | some (t, _) =>
-      let have_ := pruneBy id ((S.flatMap fun c => chain step en t FUEL c).map obs)
+      let have_ := pruneBy id ((S.flatMap fun c => chain step en t FUEL c).map fun c => render (obs c))
       s!"no {i} {showTid t} states={S.length} have={",".intercalate (have_.take 6)}"
+
+/-- `T=<N|k>;R=<n>;X=<0|1>;W=<sss:n>/…`; anything else (e.g. `T=?`) is not an observation of the model -/
+def parseObsM (s : String) : Option Monitor.Obs :=
+  match s.splitOn ";" with
+  | [t, r, x, w] => do
+    let tv := (t.drop 2).toString
+    let thread ← if !t.startsWith "T=" then none else if tv == "N" then some none else tv.toNat?.map some
+    let nret ← if r.startsWith "R=" then (r.drop 2).toString.toNat? else none
+    let crashed ← if x == "X=0" then some false else if x == "X=1" then some true else none
+    let wv := (w.drop 2).toString
+    let ws ← if !w.startsWith "W=" then none else
+      (if wv.isEmpty then [] else wv.splitOn "/").mapM fun it =>
+        match it.splitOn ":" with
+        | [f, n] =>
+          match f.toList, n.toNat? with
+          | [a, b, c], some k =>
+            if [a, b, c].all (fun ch => ch == '0' || ch == '1') then
+              some ({ started := a == '1', running := b == '1', done := c == '1', calls := k } : Monitor.ObsW)
+            else none
+          | _, _ => none
+        | _ => none
+    pure { thread := thread, nret := nret, crashed := crashed, ws := ws }
+  | _ => none
 
 def showTidM : Monitor.Tid → String
   | .ctl => "c" | .w i => s!"w{i + 1}"
@@ -260,9 +287,9 @@ def admitM (f : List String) : Option String :=
   | [mode, freq, daemon, calls, trace] => do
     let m ← parseMode mode
     let cs ← (splitList calls).mapM parseCall
-    let (o0, tr) ← parseTrace parseTid trace
+    let (o0, tr) ← parseTrace parseTid parseObsM trace
     let p : Monitor.Params := { mode := m, freqPos := freq == "1", daemon := daemon == "1" }
-    pure (answer (Monitor.step p) Monitor.enabled Monitor.obsStr Monitor.keyStr showTidM
+    pure (answer (Monitor.step p) Monitor.enabled Monitor.obs Monitor.Obs.render Monitor.keyStr showTidM
       (Monitor.init cs) o0 tr)
   | _ => none
 
@@ -273,8 +300,8 @@ def admitB (f : List String) : Option String :=
   match f with
   | [calls, trace] => do
     let cs ← (splitList calls).mapM parseBCall
-    let (o0, tr) ← parseTrace parseBTid trace
-    pure (answer BlockWait.step BlockWait.enabled (BlockWait.obsStr cs.length) BlockWait.keyStr showTidB
+    let (o0, tr) ← parseTrace parseBTid some trace
+    pure (answer BlockWait.step BlockWait.enabled (BlockWait.obsStr cs.length) id BlockWait.keyStr showTidB
       (BlockWait.init .started cs) o0 tr)
   | _ => none
 
@@ -287,8 +314,8 @@ def admitT (f : List String) : Option String :=
     let m ← parseTMode mode
     let n ← nstops.toNat?
     let ss ← (splitList scripts "/").mapM parseOps
-    let (o0, tr) ← parseTrace parseTTid trace
-    pure (answer (ThreadMgr.step m) ThreadMgr.enabled (ThreadMgr.obsStr (ss.map List.length) n)
+    let (o0, tr) ← parseTrace parseTTid some trace
+    pure (answer (ThreadMgr.step m) ThreadMgr.enabled (ThreadMgr.obsStr (ss.map List.length) n) id
       ThreadMgr.keyStr showTidT (ThreadMgr.init m ss n) o0 tr)
   | _ => none
 end A
